@@ -131,26 +131,60 @@ Theorem C05_stored_cookies_authentic : forall open q evs nr c,
 Proof. exact loop_cookies_authentic. Qed.
 Print Assumptions C05_stored_cookies_authentic.
 
-(* MeasureClockOffsetIP (one to three exchanges): an offset is returned only
-   as the offset of a datagram that was genuine for the request outstanding
-   in its exchange *)
+(* MeasureClockOffsetIP (one to three exchanges): an offset is returned only as the offset of a
+   datagram that was genuine for the request outstanding in its exchange - THE request the model
+   built in the state the client had reached after the exchanges before it (state_after; not some
+   state), and the (request, outcome) pair is the one the run recorded *)
 Theorem C05_call_offset_genuine : forall open c st envs st' off ts lrs,
   envs <> [] ->
   call open c st envs = (st', COffset off ts, lrs) ->
-  exists stk e g h i, In e envs /\ nth_error (e_evs e) i = Some (EvDgram g) /\ (i <= 1)%nat /\
-    genuine open (make_request c stk e) g h /\ off = r_off (result_of (make_request c stk e) g h).
+  exists pre e post g h i,
+    firstn (num_exchanges c) envs = pre ++ e :: post /\
+    let q := make_request c (state_after open c st pre) e in
+    nth_error (e_evs e) i = Some (EvDgram g) /\ (i <= 1)%nat /\
+    genuine open q g h /\ clock_sane q g h /\ off = r_off (result_of q g h) /\ ts = r_crx (result_of q g h) /\
+    In (q, LAccept i (result_of q g h)) lrs.
 Proof. exact call_offset_genuine. Qed.
 Print Assumptions C05_call_offset_genuine.
 
-(* the same over every history of calls (and mode resets) of one client *)
+(* the same over every history of calls (and mode resets) of one client: the call is the one at
+   its position in the history, entered in the state the history before it produced (hist_state,
+   call_entry), the request the one built after the exchanges of that call before it *)
 Theorem C05_history_offsets_genuine : forall open c ops st off ts lrs,
   calls_nonempty ops ->
   In (COffset off ts, lrs) (history open c st ops) ->
-  exists envs stk e g h i, In (HCall envs) ops /\ In e envs /\
+  exists opre envs opost pre e post g h i,
+    ops = opre ++ HCall envs :: opost /\
+    firstn (num_exchanges c) envs = pre ++ e :: post /\
+    let q := make_request c (state_after open c (call_entry c (hist_state open c st opre)) pre) e in
     nth_error (e_evs e) i = Some (EvDgram g) /\ (i <= 1)%nat /\
-    genuine open (make_request c stk e) g h /\ off = r_off (result_of (make_request c stk e) g h).
+    genuine open q g h /\ clock_sane q g h /\ off = r_off (result_of q g h) /\ ts = r_crx (result_of q g h) /\
+    In (q, LAccept i (result_of q g h)) lrs.
 Proof. exact history_offsets_genuine. Qed.
 Print Assumptions C05_history_offsets_genuine.
+
+(* the states in those statements are reachable ... *)
+Theorem C05_history_states_reachable : forall open c ops pre,
+  reachable open c (state_after open c (call_entry c (hist_state open c cstate0 ops)) pre).
+Proof.
+  intros open c ops pre. apply reachable_after. apply reachable_entry. apply reachable_hist. apply reach_init.
+Qed.
+Print Assumptions C05_history_states_reachable.
+
+(* ... and in a reachable state what an interleaved request quotes (c.prev: the server receive
+   timestamp, the client's transmit and receive stamps) was recorded from a datagram that the
+   receive loop accepted as genuine for the request built in a reachable state: the origin and
+   transmit-not-before-receive clauses of an interleaved exchange refer to an ACCEPTED datagram's
+   timestamps, never to those of a skipped or rejected one *)
+Theorem C05_state_provenance : forall open c st, reachable open c st -> s_has st = true ->
+  exists st0 e g h k, reachable open c st0 /\
+    let q := make_request c st0 e in
+    recv_loop open q 0 0 (e_evs e) = LAccept k (result_of q g h) /\
+    nth_error (e_evs e) k = Some (EvDgram g) /\ genuine open q g h /\ clock_sane q g h /\
+    s_srx st = h_rx h /\ s_ctx st = time64_of_time (e_ctx1 e) /\ s_crx st = time64_of_time (crx_of g) /\
+    s_il st = is_interleaved q h.
+Proof. exact state_provenance. Qed.
+Print Assumptions C05_state_provenance.
 
 (* the state kept for interleaved mode is that of the accepted response, and
    an interleaved request quotes exactly that state *)
@@ -280,8 +314,12 @@ Proof. vm_compute. reflexivity. Qed.
 Theorem C05_scion_call_offset_genuine : forall open c st envs st' cr lrs off ts,
   envs <> [] ->
   call open c st envs = (st', cr, lrs) -> scion_return cr = COffset off ts ->
-  exists stk e g h i, In e envs /\ nth_error (e_evs e) i = Some (EvDgram g) /\ (i <= 1)%nat /\
-    genuine open (make_request c stk e) g h /\ off = r_off (result_of (make_request c stk e) g h).
+  exists pre e post g h i,
+    firstn (num_exchanges c) envs = pre ++ e :: post /\
+    let q := make_request c (state_after open c st pre) e in
+    nth_error (e_evs e) i = Some (EvDgram g) /\ (i <= 1)%nat /\
+    genuine open q g h /\ clock_sane q g h /\ off = r_off (result_of q g h) /\ ts = r_crx (result_of q g h) /\
+    In (q, LAccept i (result_of q g h)) lrs.
 Proof. exact scion_call_offset_genuine. Qed.
 Print Assumptions C05_scion_call_offset_genuine.
 
